@@ -13,6 +13,7 @@ import (
 	"github.com/mholt/caddy-l4/modules/l4proxy"
 
 	"verif/sim/gen"
+	"verif/sim/simnet"
 	"verif/sim/worlds"
 )
 
@@ -139,7 +140,15 @@ func runC08(t *testing.T, e *worlds.Env, tier string) (bool, any) {
 		conEk := tp.Pick("consume-e", 1, 4, 11)
 		subE := HSpec{Kind: "subroute", Name: "subE", Sub: &RLSpec{Routes: []RSpec{{Handlers: []HSpec{{Kind: "consume", Name: "conE", K: conEk}}}}}}
 		recE := HSpec{Kind: "recorder", Name: "recE", MaxBuf: 2048}
+		// a wrapping handler (proxy_protocol: the header starts with 'P') and, behind it, matching on the
+		// wrapped connection that outgrows the first prefetch chunk: the wrapped connection starts on
+		// its parent's drained matching buffer and replaces it while the parent still refers to it
+		ppP := HSpec{Kind: "pp", Name: "ppP"}
+		ppDone := HSpec{Kind: "ppmark", Name: "ppdoneP"}
+		subP := HSpec{Kind: "subroute", Name: "subP", Sub: &RLSpec{Routes: []RSpec{{Sets: [][]MSpec{{{ID: "msubP", Need: tp.Pick("subp-need", 3000, 2049, 5000, 10), Kind: VYes, Mode: tp.Choose(4, "mode")}}},
+			Handlers: []HSpec{{Kind: "recorder", Name: "recP", MaxBuf: 3000}}}}}}
 		routes := layer4.RouteList{
+			layer4.VerifNewRoute([]layer4.MatcherSet{{first('P')}}, []layer4.NextHandler{b.Handler(&ppP, sig), b.Handler(&ppDone, sig), b.Handler(&subP, sig)}),
 			layer4.VerifNewRoute([]layer4.MatcherSet{{first('A')}}, []layer4.NextHandler{thr, recA}),
 			layer4.VerifNewRoute([]layer4.MatcherSet{{first('B')}}, []layer4.NextHandler{b.Handler(&markB, sig), b.Handler(&teeSpec, sig), b.Handler(&echoMark, sig), b.Handler(&echoH, sig)}),
 			layer4.VerifNewRoute([]layer4.MatcherSet{{first('C')}}, []layer4.NextHandler{b.Handler(&conC, sig), b.Handler(&subC, sig)}),
@@ -157,7 +166,7 @@ func runC08(t *testing.T, e *worlds.Env, tier string) (bool, any) {
 		}
 		n := 2 + tp.LogRange(0, maxN-2, "nconn")
 		sample.Conns = n
-		classes := []byte{'A', 'B', 'C', 'D', 'V', 'Z', 'E', 'T'}
+		classes := []byte{'A', 'B', 'C', 'D', 'V', 'Z', 'E', 'T', 'P'}
 		for i := 1; i <= n; i++ {
 			cls := classes[tp.Choose(len(classes), "class")]
 			plan := &worlds.ClientPlan{ID: i, Addr: worlds.ClientAddr(i), End: worlds.EndHalfClose}
@@ -176,8 +185,20 @@ func runC08(t *testing.T, e *worlds.Env, tier string) (bool, any) {
 					m.App[conEk] = 'e'
 				}
 			}
-			plan.App = m.App
-			plan.Chunks = e.MakeChunks(len(m.App), 3*time.Millisecond)
+			if cls == 'P' {
+				if len(m.App) < 5200 {
+					m.App = worlds.Stream(m.Key, 5200+tp.Choose(3000, "len-p"))
+				}
+				hd := PPHeader{Version: 1, Src: simnet.TCPAddr("192.0.2.9", 7000+i), Dst: simnet.TCPAddr("198.51.100.1", 443)}
+				plan.Pre = hd.Encode()
+				plan.App = m.App // (the client sends Pre, then App)
+				m.Pre = plan.Pre
+				m.App = append(append([]byte(nil), plan.Pre...), m.App...)
+				e.Reg.Alias(hd.Src.String(), m)
+			} else {
+				plan.App = m.App
+			}
+			plan.Chunks = e.MakeChunks(len(plan.App), 3*time.Millisecond)
 			e.Reg.Add(m)
 			c := &cs{class: cls, model: m}
 			c.client = e.StartClient(w.Ln, plan, m)
@@ -250,13 +271,13 @@ func runC08(t *testing.T, e *worlds.Env, tier string) (bool, any) {
 			for _, hc := range m.HandlerCalls {
 				ran[hc.Handler] = true
 			}
-			want := map[byte]string{'A': "recA", 'B': "echoB", 'C': "conC", 'V': "recV", 'E': "recE"}[c.class]
+			want := map[byte]string{'A': "recA", 'B': "echoB", 'C': "conC", 'V': "recV", 'E': "recE", 'P': "recP"}[c.class]
 			connected := c.client.End != nil && c.client.WriteErr == nil
 			if !connected {
 				continue
 			}
 			for h := range ran {
-				ok := h == want || (c.class == 'B' && (h == "teemarkB" || h == "branchB")) || (c.class == 'C' && h == "recC") || (c.class == 'E' && h == "conE")
+				ok := h == want || (c.class == 'B' && (h == "teemarkB" || h == "branchB")) || (c.class == 'C' && h == "recC") || (c.class == 'E' && h == "conE") || (c.class == 'P' && h == "ppdoneP")
 				if !ok {
 					fail("misrouted", "conn %d (first byte %q) was handled by %s; alone it is handled by %q", m.ID, c.class, h, want)
 					return
